@@ -58,7 +58,7 @@ struct ModelClient {
 	void do_ping(const Addr *spoof_src = nullptr, int uid_override = -1);
 	void do_simple(char cmd, const std::string &args, const Addr *spoof_src = nullptr);  // i,s,o,y,z: args follow the command letter
 	void do_setfrag(int f, int uid_override = -1);
-	void do_probe(int f);
+	void do_probe(int f, int fillchars = 40);
 	void do_rawlogin(const std::string &mode = "good", const Addr *spoof_src = nullptr);
 	void do_rawping();
 	void do_rawdata(const Bytes &pkt);
